@@ -1,7 +1,8 @@
 /-
 Props/C06.lean — "Checks with a closed-form criterion flag exactly the artifacts that meet it"
 (RSA half: CheckSizes, CheckExponents, CheckROCA, CheckROCAVariant, CheckOpensslDenylist,
-CheckKeypairDenylist; the EC half — CheckValidECKey / CheckWeakCurve — is not in this file).
+CheckKeypairDenylist; EC half at the end of the file: CheckValidECKey / CheckWeakCurve, over
+Model/Ec.lean `isValidPublicKey` and the check-level models of Model/Bsgs.lean).
 
 Property theorems only; helper lemmas live in Proofs/ClosedForm.lean.  The ROCA prime tuples
 and F4 come from Generated/Consts.lean, regenerated from /repo on every run, so the
@@ -12,6 +13,7 @@ an oracle is involved, over EVERY oracle answer (SHA-1 digest, generator output)
 supplied deny list / table.
 -/
 import ParanoidModel.Proofs.ClosedForm
+import ParanoidModel.Proofs.BsgsChecks
 namespace Paranoid.C06
 open Paranoid Paranoid.Consts
 
@@ -305,5 +307,127 @@ example : seedFromMeta [0x1e, 4, 8, 0x1c, 2] =
     .ok ([0x1e, 0, 0, 0, 8] ++ List.replicate 23 0 ++ [2, 0, 0, 0]) := by decide +kernel
 example : keypairStep [(2 ^ 63, [7])] (2 ^ 63 * 2 ^ 10) (fun _ _ => (2 ^ 63, 2 ^ 10)) =
     .ok (true, [2 ^ 63, 2 ^ 10]) := by decide +kernel
+
+/-! ## EC half: CheckValidECKey, CheckWeakCurve -/
+
+section ec
+open Paranoid.Ec Paranoid.Bsgs WeierstrassCurve
+
+/-- ★ `validKey_iff` (function level). For `p` prime, `p ≠ 2`, non-zero discriminant, and ANY integer
+coordinates: `IsValidPublicKey((x, y))` never raises and is `True` exactly when
+`0 ≤ x, y < p`, `y² ≡ x³ + a·x + b (mod p)` and (`h ≤ 1` or `n • P = ∞` in the group);
+`IsValidPublicKey(INFINITY)` is `False`. -/
+theorem validKey_iff (c : Curve) [Fact (Nat.Prime c.p)] (hc : c.Good) (x y : Int) :
+    ∃ b, isValidPublicKey c (.aff x y) = .ok b ∧
+      (b = true ↔ InRangeOnCurve c x y ∧ (c.h ≤ 1 ∨ c.n • toPoint c (.aff x y) = 0)) := by
+  obtain ⟨b, hb, hiff⟩ := isValidPublicKey_spec c hc (.aff x y)
+  refine ⟨b, hb, hiff.trans ?_⟩
+  constructor
+  · rintro ⟨hon, _, hord, x', y', he, h1, h2, h3, h4⟩
+    cases he
+    refine ⟨⟨h1, by omega, h3, by omega, (onCurve_iff_congr c x y).mp hon⟩, ?_⟩
+    by_cases hh : c.h ≤ 1
+    · exact .inl hh
+    · exact .inr (hord (by omega))
+  · rintro ⟨⟨h1, h2, h3, h4, h5⟩, hord⟩
+    refine ⟨(onCurve_iff_congr c x y).mpr h5, by simp, fun hh => ?_, x, y, rfl, h1, by omega, h3, by omega⟩
+    rcases hord with h | h
+    · omega
+    · exact h
+
+theorem validKey_infinity (c : Curve) : isValidPublicKey c .inf = .ok false := by
+  simp [isValidPublicKey, onCurve]
+
+/-- cofactor 1 (every curve of `CURVE_FACTORY`, `curve_factory_cofactors`): the answer is the
+closed-form criterion alone, for ANY curve parameters (no primality needed). -/
+theorem validKey_iff_cofactor_one (c : Curve) (hh : c.h ≤ 1) (x y : Int) :
+    isValidPublicKey c (.aff x y) = .ok (decide (InRangeOnCurve c x y)) :=
+  isValidPublicKey_cofactor_one c hh x y
+
+/-- ★ CheckValidECKey, check level, for every batch and every factory whose curves have cofactor
+`≤ 1`: the check never raises, writes a result for EVERY key, attaches nothing, and flags exactly
+the keys whose `curve_type` is not in the factory or maps to `None` (unknown and binary-field
+curves) or whose point fails `0 ≤ x, y < p ∧ y² ≡ x³ + a·x + b (mod p)`. -/
+theorem checkValidECKey_iff (f : Factory) (hf : ∀ id c, factoryGet f id = some c → c.h ≤ 1)
+    (keys : List ECKey) :
+    checkValidECKey f keys = .ok (keys.map fun k => some ⟨invalidKeySpec f k, none⟩) ∧
+    ∀ k, invalidKeySpec f k = true ↔
+      (factoryGet f k.curveType = none ∨
+        ∃ c, factoryGet f k.curveType = some c ∧ ¬ InRangeOnCurve c (k.x : Int) (k.y : Int)) := by
+  refine ⟨checkValidECKey_cofactor_one f hf keys, fun k => ?_⟩
+  unfold invalidKeySpec
+  cases factoryGet f k.curveType with
+  | none => simp
+  | some c => simp
+
+/-- … with a cofactor `> 1` (general factory) the subgroup test is added, per key. -/
+theorem validKeyOne_general (f : Factory) (k : ECKey) (c : Curve) [Fact (Nat.Prime c.p)]
+    (hc : c.Good) (hget : factoryGet f k.curveType = some c) :
+    ∃ b, validKeyOne f k = .ok (some ⟨b, none⟩) ∧
+      (b = false ↔ InRangeOnCurve c (k.x : Int) (k.y : Int) ∧
+        (c.h ≤ 1 ∨ c.n • toPoint c k.pt = 0)) := by
+  obtain ⟨b, hb, hiff⟩ := validKey_iff c hc (k.x : Int) (k.y : Int)
+  refine ⟨!b, by simp [validKeyOne, hget, ECKey.pt, hb], ?_⟩
+  show (!b) = false ↔ _ ∧ (_ ∨ c.n • toPoint c (.aff (k.x : Int) (k.y : Int)) = 0)
+  rw [← hiff]; simp
+
+theorem validKeyOne_unknown (f : Factory) (k : ECKey) (hget : factoryGet f k.curveType = none) :
+    validKeyOne f k = .ok (some ⟨true, none⟩) := by simp [validKeyOne, hget]
+
+/-- the regenerated `CURVE_FACTORY`: nine prime-field curves, all of cofactor 1, under the ids
+`2,4,1,3,5,6,17,18,19`; the ten binary-field ids `7…16` map to `None`; every other id
+(`CURVE_UNKNOWN = 0`, …) is absent. -/
+theorem curve_factory_eq : regenFactory =
+    [⟨2, some secp256r1⟩, ⟨4, some secp384r1⟩, ⟨1, some secp192r1⟩, ⟨3, some secp224r1⟩,
+     ⟨5, some secp521r1⟩, ⟨6, some secp256k1⟩,
+     ⟨17, some brainpoolP256r1⟩, ⟨18, some brainpoolP384r1⟩, ⟨19, some brainpoolP512r1⟩,
+     ⟨7, none⟩, ⟨8, none⟩, ⟨9, none⟩, ⟨10, none⟩,
+     ⟨11, none⟩, ⟨12, none⟩, ⟨13, none⟩, ⟨14, none⟩, ⟨15, none⟩, ⟨16, none⟩] := regenFactory_eq
+
+theorem curve_factory_cofactors : ∀ id c, factoryGet regenFactory id = some c → c.h ≤ 1 :=
+  regenFactory_cofactor
+
+/-- ★ CheckValidECKey on the regenerated factory. -/
+theorem checkValidECKey_factory (keys : List ECKey) :
+    checkValidECKey regenFactory keys =
+      .ok (keys.map fun k => some ⟨invalidKeySpec regenFactory k, none⟩) :=
+  (checkValidECKey_iff regenFactory regenFactory_cofactor keys).1
+
+/-- ★ `weakCurve_iff`. CheckWeakCurve, for every factory and batch: keys whose curve is unknown /
+`None` get NO result (skipped — CheckValidECKey flags them); every other key gets a result, flagged
+exactly when the order `n` of its curve has fewer than 224 bits (`n.bit_length() < 224`, i.e.
+`n < 2^223`); nothing is attached. -/
+theorem weakCurve_iff (f : Factory) (keys : List ECKey) :
+    checkWeakCurve f keys = keys.map fun k =>
+      match factoryGet f k.curveType with
+      | none => none
+      | some c => some ⟨decide (bitLength c.n < 224), none⟩ := rfl
+
+theorem weakCurve_threshold (n : Nat) : bitLength n < 224 ↔ n < 2 ^ 223 := by
+  unfold bitLength
+  split
+  · rename_i h; subst h; simp
+  · rename_i h
+    rw [show Nat.log2 n + 1 < 224 ↔ Nat.log2 n < 223 by omega, Nat.log2_lt h]
+
+/-- on the regenerated `CURVE_FACTORY` exactly the id `1` = secp192r1 (192-bit order) is flagged;
+secp224r1 (224 bits) is not. -/
+theorem weakCurve_factory :
+    weakCurveIds regenFactory = [1] ∧ factoryGet regenFactory 1 = some secp192r1 ∧
+    (regenFactory.filterMap fun e => e.curve.map fun c => (e.id, bitLength c.n)) =
+      [(2, 256), (4, 384), (1, 192), (3, 224), (5, 521), (6, 256), (17, 256), (18, 384), (19, 512)] :=
+  ⟨regenFactory_weakCurveIds, regenFactory_id1, regenFactory_bits⟩
+
+/-! non-vacuity -/
+example : isValidPublicKey secp256r1 secp256r1.g = .ok true := by decide +kernel
+example : isValidPublicKey secp256r1 (.aff (secp256r1.gx + secp256r1.p) secp256r1.gy) = .ok false := by
+  decide +kernel
+example : checkValidECKey regenFactory [⟨2, secp256r1.gx.toNat, secp256r1.gy.toNat⟩, ⟨0, 1, 2⟩, ⟨7, 1, 2⟩,
+    ⟨2, 1, 2⟩] = .ok [some ⟨false, none⟩, some ⟨true, none⟩, some ⟨true, none⟩, some ⟨true, none⟩] := by
+  decide +kernel
+example : checkWeakCurve regenFactory [⟨1, 0, 0⟩, ⟨3, 0, 0⟩, ⟨0, 0, 0⟩, ⟨9, 0, 0⟩] =
+    [some ⟨true, none⟩, some ⟨false, none⟩, none, none] := by decide +kernel
+
+end ec
 
 end Paranoid.C06
